@@ -140,6 +140,16 @@ def facts(repo="/repo"):
         and isinstance(n.test.comparators[0], ast.Name) and n.test.comparators[0].id == "UNANNOTATED"
         for n in ast.walk(compat)
     )
+    # annotations.py: a bare name inside a string / postponed annotation of a runtime function is looked up in
+    # the function's module globals BEFORE the builtins (Python's own order; round-4 seeded change)
+    amod = ast.parse(Path(repo, "pyanalyze/annotations.py").read_text())
+    gn = _find_fn(_find_class(amod, "Context"), "get_name_from_globals")
+    first_if = next((n for n in gn.body if isinstance(n, ast.If)), None)
+    f["annotation_names_globals_before_builtins"] = bool(
+        first_if is not None and isinstance(first_if.test, ast.Compare) and len(first_if.test.ops) == 1
+        and isinstance(first_if.test.ops[0], ast.In) and isinstance(first_if.test.comparators[0], ast.Name)
+        and first_if.test.comparators[0].id == "globals"
+    )
     return f
 
 
